@@ -12,3 +12,12 @@ package flows
 //@   requires e != nil && !isnil(e.session) && e.session.(*engine.session) != nil && !isnil(e.Environment)
 //@   ensures [contact_allowed] (e.session.Contact() != nil && e.session.Contact().language != "" && langIn(e.Environment.AllowedLanguages(), e.session.Contact().language)) ==> result == e.session.Contact().language
 //@   ensures [else_env] !(e.session.Contact() != nil && e.session.Contact().language != "" && langIn(e.Environment.AllowedLanguages(), e.session.Contact().language)) ==> result == e.Environment.DefaultLanguage()
+
+// ---- C03: ghost event log. evlog is *defined* as the sequence of events handed to EventCallback
+// values; the callback contract is that definition plus the frame of every callback the module creates
+// (checked structurally: callback_frame).
+//@ ghost evlog seq[Event]
+
+//@ interface EventCallback.call
+//@   assigns ghost.evlog, engine.sprint::events, runs.run::events, runs.run::modifiedOn, events.BaseEvent::StepUUID_
+//@   ensures ghost.evlog == old(ghost.evlog) ++ [arg0]
